@@ -19,6 +19,18 @@ _K3_NOTE = ("Trusted: the rxvc VC generator; z3/cvc5; A-gil (a single attribute 
 _K3_TECH = "K3 monitor invariant + rely/guarantee interference + ghost token accounting, per critical section, SMT-discharged"
 
 CHECKS = {
+    "C39": {
+        "text": "For every public method of the eleven Observable mixins and every call shape (number of positional arguments x set of "
+                "keywords) accepted by both the method and ops.<same name>, the real method body is executed with symbolic argument "
+                "values; the obligation is that it returns exactly self.pipe(ops.<name>(...)) with every ops parameter - bound through "
+                "the real ops signature, defaults included - equal to what the same call shape gives ops.<name> directly (proved under "
+                "the path condition, so branching methods are covered per path). Finite set of shapes, symbolic values: all arguments.",
+        "note": "Trusted: rxvc's interpreter for the method bodies and Python's argument-binding rules as implemented in rxvc; the "
+                "operator functions themselves are opaque terms (their behaviour is the business of C05..C19). Shapes accepted by only "
+                "one side (renamed keyword, parameter the fluent method does not expose) are listed as notes, not violations. "
+                "Known finding: do (see /verif/known_findings.json).",
+        "technique": "K6 forwarding contracts over all call shapes, symbolic argument values, SMT equality of bound parameters; native replay",
+    },
     "C25": {
         "text": "Every method of the real Disposable/BooleanDisposable is executed symbolically as one thread against an arbitrary "
                 "environment: shared fields are havocked under the monitor invariant and the rely at every point where the lock is "
